@@ -9,6 +9,7 @@ All helper lemmas live in `SqVerif.Stab.Meas` (so that they cannot clash with
 the lemma files of the other L0 developments); only the specification
 predicate `Collapsed` is in `SqVerif.Stab`.
 -/
+set_option linter.unusedSimpArgs false
 namespace SqVerif.Stab
 
 /-- The post-measurement group for outcome `o` on qubit `j`:
@@ -244,6 +245,9 @@ theorem pairComm_dens {n : Nat} {g : List Row} (hc : Commuting n g) : PairComm (
   obtain ⟨r', hr', rfl⟩ := mem_dens hb
   exact hc.comm r hr r' hr'
 
+@[simp] theorem dens_cons (r : Row) (rs : List Row) : dens (r :: rs) = r.den :: dens rs := rfl
+@[simp] theorem dens_nil : dens [] = [] := rfl
+
 theorem dens_length (g : List Row) : (dens g).length = g.length := by simp [dens]
 
 theorem inGroup_len {n : Nat} {g : List Row} (hw : ∀ r, r ∈ g → r.ps.length = n) {p : POp}
@@ -365,6 +369,427 @@ theorem not_both {n : Nat} {g : List Row} (hv : Valid n g) {p : POp} (hh : p.ph 
   have := hx'.2
   simp only [one, POp.mul, POp.neg, phL_self] at this
   omega
+
+/-! ### length bookkeeping -/
+
+theorem mul_psl {n : Nat} {p q : POp} (hp : p.ps.length = n) (hq : q.ps.length = n) : (p ⋆ q).ps.length = n := by
+  have := mul_len p q (by simp [POp.len, hp, hq])
+  simpa [POp.len, hp] using this
+
+theorem one_psl (n : Nat) : (one n).ps.length = n := by simp [one]
+
+theorem zAt_psl (n j : Nat) (o : Bool) : (zAt n j o).ps.length = n := by simp [zAt, setP, idPad]
+
+theorem neg_psl {n : Nat} {p : POp} (hp : p.ps.length = n) : p.neg.ps.length = n := hp
+
+theorem mul_assoc' {n : Nat} {p q r : POp} (hp : p.ps.length = n) (hq : q.ps.length = n) (hr : r.ps.length = n) :
+    (p ⋆ q) ⋆ r ≈ₚ p ⋆ (q ⋆ r) := mul_assoc p q r (hp.trans hq.symm) (hq.trans hr.symm)
+
+/-! ### transport along the qubit permutation -/
+
+theorem idPad_succ (n : Nat) : idPad (n + 1) = (false, false) :: idPad n := rfl
+
+theorem getP_idPad (n j : Nat) : getP (idPad n) j = (false, false) := by
+  induction n generalizing j with
+  | zero => rfl
+  | succ n ih => cases j with
+    | zero => rfl
+    | succ j => simpa [idPad_succ] using ih j
+
+theorem eraseIdx_idPad (n j : Nat) (h : j < n + 1) : (idPad (n + 1)).eraseIdx j = idPad n := by
+  induction n generalizing j with
+  | zero =>
+    have : j = 0 := by omega
+    subst this; rfl
+  | succ n ih => cases j with
+    | zero => rfl
+    | succ j =>
+      rw [idPad_succ, List.eraseIdx_cons_succ, ih j (by omega)]; rfl
+
+theorem toFront_idPad (n j : Nat) (h : j < n) : toFront j (idPad n) = idPad n := by
+  cases n with
+  | zero => omega
+  | succ n =>
+    simp only [toFront]
+    rw [getP_idPad, eraseIdx_idPad n j h]; rfl
+
+theorem one_toFront (n j : Nat) (h : j < n) : (one n).toFront j = one n := by
+  simp only [POp.toFront, one]
+  congr 1
+  exact toFront_idPad n j h
+
+theorem mul_toFront (p q : POp) (j : Nat) (h : p.ps.length = q.ps.length) :
+    p.toFront j ⋆ q.toFront j = (p ⋆ q).toFront j := by
+  simp only [POp.toFront, POp.mul, phL_toFront _ _ j h, mulL_toFront _ _ j h]
+
+theorem den_toFront (r : Row) (j : Nat) : (Row.toFront j r).den = r.den.toFront j := rfl
+theorem den_fromFront (r : Row) (j : Nat) : (Row.fromFront j r).den = r.den.fromFront j := rfl
+
+theorem prodSel_toFront (n j : Nat) (hj : j < n) (c : List Bool) (g : List Row) (hw : ∀ r, r ∈ g → r.ps.length = n) :
+    prodSel n c (dens (g.map (Row.toFront j))) = (prodSel n c (dens g)).toFront j := by
+  induction g generalizing c with
+  | nil => cases c <;> simp [dens, prodSel, one_toFront n j hj]
+  | cons r rs ih =>
+    cases c with
+    | nil => simp [prodSel, one_toFront n j hj]
+    | cons a cs =>
+      have hrs : ∀ r, r ∈ rs → r.ps.length = n := fun x hx => hw x (by simp [hx])
+      have IH := ih cs hrs
+      simp only [dens, List.map_cons, prodSel] at IH ⊢
+      rw [IH]
+      split
+      · rw [den_toFront, mul_toFront]
+        have := prodSel_len n cs (dens rs) (rowsOK_dens hrs)
+        simp only [POp.len, dens] at this
+        rw [this]; exact hw r (by simp)
+      · rfl
+
+theorem pop_fromFront_toFront (j : Nat) (p : POp) (h : j < p.ps.length) : (p.toFront j).fromFront j = p := by
+  cases p; simp only [POp.toFront, POp.fromFront] at *; rw [fromFront_toFront _ _ h]
+
+theorem pop_toFront_fromFront (j : Nat) (p : POp) (h : j < p.ps.length) : (p.fromFront j).toFront j = p := by
+  cases p; simp only [POp.toFront, POp.fromFront] at *; rw [toFront_fromFront _ _ h]
+
+theorem eqv_toFront {p q : POp} (j : Nat) (h : p ≈ₚ q) : p.toFront j ≈ₚ q.toFront j :=
+  ⟨by simp [POp.toFront, h.1], h.2⟩
+
+theorem eqv_fromFront {p q : POp} (j : Nat) (h : p ≈ₚ q) : p.fromFront j ≈ₚ q.fromFront j :=
+  ⟨by simp [POp.fromFront, h.1], h.2⟩
+
+theorem eqv_of_toFront {p q : POp} {j : Nat} (hp : j < p.ps.length) (hq : j < q.ps.length)
+    (h : p.toFront j ≈ₚ q.toFront j) : p ≈ₚ q := by
+  have := eqv_fromFront j h
+  rwa [pop_fromFront_toFront j p hp, pop_fromFront_toFront j q hq] at this
+
+theorem toFront_psl {n j : Nat} {p : POp} (hj : j < n) (hp : p.ps.length = n) : (p.toFront j).ps.length = n := by
+  simp only [POp.toFront]; rw [toFront_length _ _ (by omega)]; exact hp
+
+theorem fromFront_psl {n j : Nat} {p : POp} (hp : p.ps.length = n) : (p.fromFront j).ps.length = n := by
+  simp only [POp.fromFront]; rw [fromFront_length]; exact hp
+
+theorem width_toFront {n j : Nat} {g : List Row} (hj : j < n) (hw : ∀ r, r ∈ g → r.ps.length = n) :
+    ∀ r, r ∈ g.map (Row.toFront j) → r.ps.length = n := by
+  intro r hr
+  obtain ⟨r', hr', rfl⟩ := List.mem_map.mp hr
+  simp only [Row.toFront]; rw [toFront_length _ _ (by rw [hw r' hr']; exact hj)]; exact hw r' hr'
+
+theorem width_fromFront {n j : Nat} {g : List Row} (hw : ∀ r, r ∈ g → r.ps.length = n) :
+    ∀ r, r ∈ g.map (Row.fromFront j) → r.ps.length = n := by
+  intro r hr
+  obtain ⟨r', hr', rfl⟩ := List.mem_map.mp hr
+  simp only [Row.fromFront]; rw [fromFront_length]; exact hw r' hr'
+
+theorem map_toFront_fromFront {n j : Nat} {g : List Row} (hj : j < n) (hw : ∀ r, r ∈ g → r.ps.length = n) :
+    (g.map (Row.fromFront j)).map (Row.toFront j) = g := by
+  rw [List.map_map]
+  conv => rhs; rw [← List.map_id g]
+  apply List.map_congr_left
+  intro r hr
+  cases r with
+  | mk ps neg =>
+    simp only [Function.comp, Row.toFront, Row.fromFront, id]
+    rw [toFront_fromFront _ _ (by have := hw _ hr; simp at this; omega)]
+
+theorem map_fromFront_toFront {n j : Nat} {g : List Row} (hj : j < n) (hw : ∀ r, r ∈ g → r.ps.length = n) :
+    (g.map (Row.toFront j)).map (Row.fromFront j) = g := by
+  rw [List.map_map]
+  conv => rhs; rw [← List.map_id g]
+  apply List.map_congr_left
+  intro r hr
+  cases r with
+  | mk ps neg =>
+    simp only [Function.comp, Row.toFront, Row.fromFront, id]
+    rw [fromFront_toFront _ _ (by have := hw _ hr; simp at this; omega)]
+
+theorem inGroup_toFront {n j : Nat} {g : List Row} (hw : ∀ r, r ∈ g → r.ps.length = n) (hj : j < n)
+    {P : POp} (hP : P.ps.length = n) : InGroup n (g.map (Row.toFront j)) (P.toFront j) ↔ InGroup n g P := by
+  constructor
+  · rintro ⟨c, hc, e⟩
+    refine ⟨c, by simpa using hc, ?_⟩
+    rw [prodSel_toFront n j hj c g hw] at e
+    have hl := prodSel_len n c (dens g) (rowsOK_dens hw)
+    exact eqv_of_toFront (by simp only [POp.len] at hl; omega) (by omega) e
+  · rintro ⟨c, hc, e⟩
+    refine ⟨c, by simpa using hc, ?_⟩
+    rw [prodSel_toFront n j hj c g hw]
+    exact eqv_toFront j e
+
+/-- membership in a group given in the front frame -/
+theorem inGroup_fromFront {n j : Nat} {g : List Row} (hw : ∀ r, r ∈ g → r.ps.length = n) (hj : j < n)
+    {P : POp} (hP : P.ps.length = n) : InGroup n (g.map (Row.fromFront j)) P ↔ InGroup n g (P.toFront j) := by
+  have := inGroup_toFront (g := g.map (Row.fromFront j)) (width_fromFront hw) hj hP
+  rw [map_toFront_fromFront hj hw] at this
+  exact this.symm
+
+theorem commuting_toFront {n j : Nat} {g : List Row} (hj : j < n) (hc : Commuting n g) :
+    Commuting n (g.map (Row.toFront j)) := by
+  refine ⟨width_toFront hj hc.width, ?_⟩
+  intro a ha b hb
+  obtain ⟨a', ha', rfl⟩ := List.mem_map.mp ha
+  obtain ⟨b', hb', rfl⟩ := List.mem_map.mp hb
+  simp only [Row.toFront]
+  rw [antiL_toFront _ _ j ((hc.width a' ha').trans (hc.width b' hb').symm)]
+  exact hc.comm a' ha' b' hb'
+
+theorem commuting_of_toFront {n j : Nat} {g : List Row} (hw : ∀ r, r ∈ g → r.ps.length = n)
+    (hc : Commuting n (g.map (Row.toFront j))) : Commuting n g := by
+  refine ⟨hw, ?_⟩
+  intro a ha b hb
+  have := hc.comm _ (List.mem_map_of_mem ha) _ (List.mem_map_of_mem hb)
+  simp only [Row.toFront] at this
+  rwa [antiL_toFront _ _ j ((hw a ha).trans (hw b hb).symm)] at this
+
+theorem toFront_inj {n j : Nat} {a b : List P1} (hj : j < n) (ha : a.length = n) (hb : b.length = n)
+    (h : toFront j a = toFront j b) : a = b := by
+  have := congrArg (fromFront j) h
+  rwa [fromFront_toFront _ _ (by omega), fromFront_toFront _ _ (by omega)] at this
+
+theorem valid_toFront {n j : Nat} {g : List Row} (hj : j < n) (hv : Valid n g) :
+    Valid n (g.map (Row.toFront j)) := by
+  refine ⟨commuting_toFront hj hv.toCommuting, by simpa using hv.count, ?_⟩
+  intro c hc hps
+  rw [prodSel_toFront n j hj c g hv.width] at hps
+  have hl := prodSel_len n c (dens g) (rowsOK_dens hv.width)
+  have := hv.indep c (by simpa using hc) (by
+    apply toFront_inj hj hl (by simp [idPad])
+    rw [toFront_idPad n j hj]; exact hps)
+  simpa using this
+
+theorem valid_of_toFront {n j : Nat} {g : List Row} (hj : j < n) (hw : ∀ r, r ∈ g → r.ps.length = n)
+    (hv : Valid n (g.map (Row.toFront j))) : Valid n g := by
+  refine ⟨commuting_of_toFront hw hv.toCommuting, by simpa using hv.count, ?_⟩
+  intro c hc hps
+  have := hv.indep c (by simpa using hc) (by
+    rw [prodSel_toFront n j hj c g hw]
+    simp only [POp.toFront]; rw [hps, toFront_idPad n j hj])
+  simpa using this
+
+theorem maximal_toFront {n j : Nat} {g : List Row} (hj : j < n) (hw : ∀ r, r ∈ g → r.ps.length = n)
+    (hm : Maximal n g) : Maximal n (g.map (Row.toFront j)) := by
+  intro p hp hh hcomm
+  have hp' : (p.fromFront j).ps.length = n := fromFront_psl hp
+  have hback : (p.fromFront j).toFront j = p := pop_toFront_fromFront j p (by omega)
+  have := hm (p.fromFront j) hp' hh (by
+    intro r hr
+    have := hcomm _ (List.mem_map_of_mem hr)
+    simp only [Row.toFront] at this
+    rw [← antiL_toFront _ _ j (hp'.trans (hw r hr).symm)]
+    have e := congrArg POp.ps hback
+    simp only [POp.toFront] at e
+    rw [e]; exact this)
+  rcases this with h | h
+  · left; rw [← hback]; exact (inGroup_toFront hw hj hp').mpr h
+  · right
+    have : p.neg = ((p.fromFront j).neg).toFront j := by
+      conv => lhs; rw [← hback]
+      rfl
+    rw [this]; exact (inGroup_toFront (P := (p.fromFront j).neg) hw hj hp').mpr h
+
+theorem maximal_of_toFront {n j : Nat} {g : List Row} (hj : j < n) (hw : ∀ r, r ∈ g → r.ps.length = n)
+    (hm : Maximal n (g.map (Row.toFront j))) : Maximal n g := by
+  intro p hp hh hcomm
+  have := hm (p.toFront j) (toFront_psl hj hp) hh (by
+    intro r hr
+    obtain ⟨r', hr', rfl⟩ := List.mem_map.mp hr
+    simp only [Row.toFront, POp.toFront]
+    rw [antiL_toFront _ _ j (hp.trans (hw r' hr').symm)]
+    exact hcomm r' hr')
+  rcases this with h | h
+  · left; exact (inGroup_toFront hw hj hp).mp h
+  · right; exact (inGroup_toFront (P := p.neg) hw hj hp).mp h
+
+theorem validMax_toFront {n j : Nat} {g : List Row} (hj : j < n) (hv : ValidMax n g) :
+    ValidMax n (g.map (Row.toFront j)) :=
+  ⟨valid_toFront hj hv.toValid, maximal_toFront hj hv.width hv.maximal⟩
+
+theorem validMax_fromFront {n j : Nat} {g : List Row} (hj : j < n) (hv : ValidMax n g) :
+    ValidMax n (g.map (Row.fromFront j)) := by
+  have hw := width_fromFront (j := j) hv.width
+  have e := map_toFront_fromFront hj hv.width
+  refine ⟨valid_of_toFront hj hw (by rw [e]; exact hv.toValid), maximal_of_toFront hj hw (by rw [e]; exact hv.maximal)⟩
+
+/-! ### `±Z_j` -/
+
+theorem zAt_toFront (n j : Nat) (hj : j < n) (o : Bool) : (zAt n j o).toFront j = zAt n 0 o := by
+  cases n with
+  | zero => omega
+  | succ n =>
+    simp only [zAt, POp.toFront, toFront, setP]
+    congr 1
+    have h1 : getP ((idPad (n + 1)).set j (false, true)) j = (false, true) := by
+      simp [getP, List.getD_eq_getElem?_getD, idPad, hj]
+    rw [h1, List.eraseIdx_set_eq, eraseIdx_idPad n j hj]; rfl
+
+theorem zAt_ps (n j : Nat) (a b : Bool) : (zAt n j a).ps = (zAt n j b).ps := rfl
+
+theorem zAt_neg (n j : Nat) : (zAt n j false).neg ≈ₚ zAt n j true := ⟨rfl, rfl⟩
+
+theorem zAt_zero_ps (m : Nat) (o : Bool) : (zAt (m + 1) 0 o).ps = (false, true) :: idPad m := rfl
+
+/-- the commutation character with `Z_j` is the X bit at `j` -/
+theorem antiL_zAt (n j : Nat) (hj : j < n) (o : Bool) (ps : List P1) (h : ps.length = n) :
+    antiL ps (zAt n j o).ps = (getP ps j).1 := by
+  rw [← antiL_toFront _ _ j (h.trans (zAt_psl n j o).symm)]
+  have e := congrArg POp.ps (zAt_toFront n j hj o)
+  simp only [POp.toFront] at e
+  rw [e]
+  cases n with
+  | zero => omega
+  | succ m =>
+    rw [zAt_zero_ps]
+    simp only [toFront, antiL]
+    have : antiL (ps.eraseIdx j) (idPad m) = false := antiL_one _ m
+    rw [this]
+    rcases getP ps j with ⟨x, z⟩
+    cases x <;> cases z <;> rfl
+
+theorem zAt_herm (n j : Nat) (o : Bool) : (zAt n j o).ph % 2 = 0 := by
+  simp only [zAt]; split <;> rfl
+
+theorem zAt_sq (n j : Nat) (o : Bool) : zAt n j o ⋆ zAt n j o ≈ₚ one n := by
+  have := mul_self (zAt n j o) (zAt_herm n j o)
+  rwa [POp.len, zAt_psl] at this
+
+/-! ### the collapsed group -/
+
+theorem collapsed_len {n j : Nat} {g : List Row} {o : Bool} (hw : ∀ r, r ∈ g → r.ps.length = n) {q : POp}
+    (h : Collapsed n g j o q) : q.ps.length = n := by
+  obtain ⟨q0, h0, _, e | e⟩ := h
+  · rw [e.1]; exact inGroup_len hw h0
+  · rw [e.1]; exact mul_psl (inGroup_len hw h0) (zAt_psl n j o)
+
+theorem collapsed_congr {n j : Nat} {g : List Row} {o : Bool} {p q : POp} (e : p ≈ₚ q)
+    (h : Collapsed n g j o p) : Collapsed n g j o q := by
+  obtain ⟨q0, h0, hc, e' | e'⟩ := h
+  · exact ⟨q0, h0, hc, Or.inl (eqv_trans (eqv_symm e) e')⟩
+  · exact ⟨q0, h0, hc, Or.inr (eqv_trans (eqv_symm e) e')⟩
+
+theorem collapsed_of_inGroup {n j : Nat} {g : List Row} {o : Bool} {q : POp} (h : InGroup n g q)
+    (hc : antiL q.ps (zAt n j false).ps = false) : Collapsed n g j o q :=
+  ⟨q, h, hc, Or.inl (eqv_refl q)⟩
+
+theorem collapsed_one (n j : Nat) (g : List Row) (o : Bool) : Collapsed n g j o (one n) :=
+  collapsed_of_inGroup (inGroup_one n g) (antiL_one_left n _)
+
+theorem collapsed_z (n j : Nat) (g : List Row) (o : Bool) : Collapsed n g j o (zAt n j o) :=
+  ⟨one n, inGroup_one n g, antiL_one_left n _, Or.inr (eqv_symm (one_mul n _ (zAt_psl n j o)))⟩
+
+theorem collapsed_mul_z {n j : Nat} {g : List Row} {o : Bool} (hw : ∀ r, r ∈ g → r.ps.length = n) {q : POp}
+    (h : Collapsed n g j o q) : Collapsed n g j o (q ⋆ zAt n j o) := by
+  obtain ⟨q0, h0, hc, e | e⟩ := h
+  · exact ⟨q0, h0, hc, Or.inr (mul_congr e (eqv_refl _))⟩
+  · refine ⟨q0, h0, hc, Or.inl ?_⟩
+    have l0 := inGroup_len hw h0
+    refine eqv_trans (mul_congr e (eqv_refl _)) ?_
+    refine eqv_trans (mul_assoc' l0 (zAt_psl n j o) (zAt_psl n j o)) ?_
+    refine eqv_trans (mul_congr (eqv_refl _) (zAt_sq n j o)) ?_
+    exact mul_one n q0 l0
+
+theorem collapsed_mul {n j : Nat} {g : List Row} {o : Bool} (hc : Commuting n g) {p q : POp}
+    (hp : Collapsed n g j o p) (hq : Collapsed n g j o q) : Collapsed n g j o (p ⋆ q) := by
+  obtain ⟨p0, hp0, hpc, ep⟩ := hp
+  have lp := inGroup_len hc.width hp0
+  have lz := zAt_psl n j o
+  have lz' := zAt_psl n j false
+  -- first the case p ≈ p0
+  have base : ∀ q, Collapsed n g j o q → Collapsed n g j o (p0 ⋆ q) := by
+    intro q hq
+    obtain ⟨q0, hq0, hqc, eq⟩ := hq
+    have lq := inGroup_len hc.width hq0
+    have hcomm : antiL (p0 ⋆ q0).ps (zAt n j false).ps = false := by
+      show antiL (mulL p0.ps q0.ps) _ = false
+      rw [antiL_mul_left _ _ _ (lp.trans lq.symm) (lq.trans lz'.symm), hpc, hqc]; rfl
+    rcases eq with e | e
+    · exact ⟨p0 ⋆ q0, inGroup_mul hc hp0 hq0, hcomm, Or.inl (mul_congr (eqv_refl _) e)⟩
+    · refine ⟨p0 ⋆ q0, inGroup_mul hc hp0 hq0, hcomm, Or.inr ?_⟩
+      exact eqv_trans (mul_congr (eqv_refl _) e) (eqv_symm (mul_assoc' lp lq lz))
+  rcases ep with e | e
+  · exact collapsed_congr (mul_congr (eqv_symm e) (eqv_refl _)) (base q hq)
+  · -- p ≈ p0 ⋆ Z:  (p0 ⋆ Z) ⋆ q ≈ p0 ⋆ (Z ⋆ q) ≈ p0 ⋆ (q ⋆ Z)
+    have lq := collapsed_len hc.width hq
+    have hqz : antiL (zAt n j o).ps q.ps = false := by
+      obtain ⟨q0, hq0, hqc, eq⟩ := hq
+      have lq0 := inGroup_len hc.width hq0
+      rw [antiL_comm]
+      rcases eq with e' | e'
+      · rw [e'.1]; exact hqc
+      · rw [e'.1]
+        show antiL (mulL q0.ps (zAt n j o).ps) _ = false
+        rw [antiL_mul_left _ _ _ (lq0.trans lz.symm) rfl, antiL_self, zAt_ps n j o false, hqc]; rfl
+    have := base _ (collapsed_mul_z hc.width hq)
+    refine collapsed_congr ?_ this
+    apply eqv_symm
+    refine eqv_trans (mul_congr e (eqv_refl _)) ?_
+    refine eqv_trans (mul_assoc' lp lz lq) ?_
+    exact mul_congr (eqv_refl _) (mul_comm_of_commute _ _ hqz)
+
+theorem collapsed_noX {n j : Nat} {g : List Row} {o : Bool} (hj : j < n) (hw : ∀ r, r ∈ g → r.ps.length = n)
+    {q : POp} (h : Collapsed n g j o q) : (getP q.ps j).1 = false := by
+  obtain ⟨q0, h0, hc, e | e⟩ := h
+  · rw [e.1, ← antiL_zAt n j hj false _ (inGroup_len hw h0)]; exact hc
+  · rw [e.1]
+    have l0 := inGroup_len hw h0
+    show (getP (mulL q0.ps (zAt n j o).ps) j).1 = false
+    rw [getP_mulL _ _ j (l0.trans (zAt_psl n j o).symm)]
+    rw [antiL_zAt n j hj false _ l0] at hc
+    simp only [mul1, hc]
+    have : antiL (zAt n j o).ps (zAt n j o).ps = false := antiL_self _
+    rw [antiL_zAt n j hj o _ (zAt_psl n j o)] at this
+    rw [this]; rfl
+
+/-- when `(-1)^o Z_j` is already in the group the collapse changes nothing -/
+theorem collapsed_iff_of_z_mem {n j : Nat} {g : List Row} {o : Bool} (hc : Commuting n g)
+    (hz : InGroup n g (zAt n j o)) (p : POp) : Collapsed n g j o p ↔ InGroup n g p := by
+  constructor
+  · rintro ⟨q0, h0, _, e | e⟩
+    · exact inGroup_congr (eqv_symm e) h0
+    · exact inGroup_congr (eqv_symm e) (inGroup_mul hc h0 hz)
+  · intro h
+    exact collapsed_of_inGroup h (by rw [zAt_ps n j false o]; exact inGroup_comm hc h hz)
+
+theorem collapsed_toFront {n j : Nat} {g : List Row} {o : Bool} (hw : ∀ r, r ∈ g → r.ps.length = n) (hj : j < n)
+    {q : POp} (hq : q.ps.length = n) :
+    Collapsed n (g.map (Row.toFront j)) 0 o (q.toFront j) ↔ Collapsed n g j o q := by
+  have hz : ∀ (q0 : POp), q0.ps.length = n →
+      antiL (q0.toFront j).ps (zAt n 0 false).ps = antiL q0.ps (zAt n j false).ps := by
+    intro q0 l0
+    rw [← zAt_toFront n j hj false]
+    simp only [POp.toFront]
+    exact antiL_toFront _ _ j (l0.trans (zAt_psl n j false).symm)
+  constructor
+  · rintro ⟨q0', h0, hc, e⟩
+    have l0' := inGroup_len (width_toFront hj hw) h0
+    have hb : (q0'.fromFront j).toFront j = q0' := pop_toFront_fromFront j q0' (by omega)
+    have l0 : (q0'.fromFront j).ps.length = n := fromFront_psl l0'
+    refine ⟨q0'.fromFront j, ?_, ?_, ?_⟩
+    · rw [← hb] at h0; exact (inGroup_toFront hw hj l0).mp h0
+    · rw [← hz _ l0, hb]; exact hc
+    · rcases e with e | e
+      · left
+        rw [← hb] at e
+        exact eqv_of_toFront (by omega) (by omega) e
+      · right
+        rw [← hb, ← zAt_toFront n j hj o, mul_toFront _ _ j (l0.trans (zAt_psl n j o).symm)] at e
+        exact eqv_of_toFront (by omega) (by rw [mul_psl l0 (zAt_psl n j o)]; exact hj) e
+  · rintro ⟨q0, h0, hc, e⟩
+    have l0 := inGroup_len hw h0
+    refine ⟨q0.toFront j, (inGroup_toFront hw hj l0).mpr h0, by rw [hz _ l0]; exact hc, ?_⟩
+    rcases e with e | e
+    · left; exact eqv_toFront j e
+    · right
+      rw [← zAt_toFront n j hj o, mul_toFront _ _ j (l0.trans (zAt_psl n j o).symm)]
+      exact eqv_toFront j e
+
+/-- `Collapsed` of a group given in the front frame, seen from the original frame -/
+theorem collapsed_fromFront {n j : Nat} {g : List Row} {o : Bool} (hw : ∀ r, r ∈ g → r.ps.length = n) (hj : j < n)
+    {q : POp} (hq : q.ps.length = n) :
+    Collapsed n (g.map (Row.fromFront j)) j o q ↔ Collapsed n g 0 o (q.toFront j) := by
+  have := collapsed_toFront (g := g.map (Row.fromFront j)) (o := o) (width_fromFront hw) hj hq
+  rw [map_toFront_fromFront hj hw] at this
+  exact this.symm
+
+theorem restrictOp_toFront (j : Nat) (o : Bool) (q : POp) : restrictOp 0 o (q.toFront j) = restrictOp j o q := by
+  simp [restrictOp, POp.toFront, toFront]
 
 end Meas
 end SqVerif.Stab
